@@ -95,9 +95,17 @@ def lm_stream(ctx, hexe, dexe, n_cases, size):
                           "arpa": case.arpa.decode("utf-8", "replace"), "stderr": (e1 + e2)[-2000:]})
             found = True
             continue
-        probs, st = lmq.compare(case, o1, o2, want=("oracle", "struct"))
-        probs = [p for p in probs if not p.get("known_key")]
-        p2, pairs = c02_oracle(case, o1, o2)
+        try:
+            probs, st = lmq.compare(case, o1, o2, want=("oracle", "struct"))
+            probs = [p for p in probs if not p.get("known_key")]
+            p2, pairs = c02_oracle(case, o1, o2)
+        except Exception:
+            import traceback
+            ctx.violation("lm-query (C02): output of the harness/driver could not be parsed/compared for this case",
+                          {"stream": "lm-query", "arpa": case.arpa.decode("utf-8", "replace"), "queries": case.queries,
+                           "traceback": traceback.format_exc()[-1500:]})
+            found = True
+            continue
         ctx.hist("lm.equal_state_pairs", min(pairs, 50) // 10 * 10)
         ctx.count(("lm-query", case.arpa, tuple(map(str, case.queries))), nontrivial=st["nontrivial"] > 0 and not st.get("skipped"),
                   n=max(1, st["words"]))
